@@ -99,6 +99,11 @@ class Comp(object):
         return self.g._body(self, args)
 
 
+def context_class(kind):
+    from insights.core.context import HostContext, HostArchiveContext
+    return {"host": HostContext, "archive": HostArchiveContext}[kind]
+
+
 def make_registry_point(g, idx, name, h, nd):
     from insights.core import spec_factory
 
@@ -156,6 +161,8 @@ class Graph(object):
                     args.append([self.nodes[j] for j in it])
                 else:
                     args.append(self.nodes[it])
+            if nd.get("ctx"):
+                args.insert(0, context_class(nd["ctx"]))      # bound to an execution context, like a real spec
             kw = {}
             if nd.get("opt"):
                 kw["optional"] = [self.nodes[j] for j in nd["opt"]]
@@ -194,7 +201,7 @@ class Graph(object):
         t = nd["t"]
         if t == "datasource":
             broker = args[0]
-            seen = tuple(broker.get(d) for d in dr.DELEGATES[comp].deps)
+            seen = tuple(broker.get(d) for d in dr.DELEGATES[comp].deps if getattr(d, "g", None) is self)
             logged = ("broker", seen)
         else:
             logged = args
@@ -269,6 +276,10 @@ class Graph(object):
 
 def cleanup_components(comps):
     cs = list(comps)
+    for kind in ("host", "archive"):
+        deps = dr.DEPENDENTS.get(context_class(kind))
+        if deps:
+            deps.difference_update(cs)
     for c in cs:
         deleg = dr.DELEGATES.get(c)
         for reg in (dr.DELEGATES, dr.DEPENDENCIES, dr.DEPENDENTS, dr.MODULE_NAMES,
